@@ -10,16 +10,24 @@
 (*   - every proper prefix is an error,                                    *)
 (*   - every single structural edit of Snapshot!Faults is an error,        *)
 (*   - content-preserving re-encodings still restore,                      *)
-(*   - the outcome alphabet is {ok, err}: no panic.                        *)
+(*   - the outcome alphabet is {ok, err}: no panic,                        *)
+(*   - and, line by line, Restore = ok  <=>  Snapshot!Validate of what the *)
+(*     faulted text carries (parses, version, stored checksum = H(content) *)
+(*     with H recomputed by the harness as SHA-256 over the content JSON). *)
 (***************************************************************************)
 EXTENDS Integers, Sequences, FiniteSets, TLC, Json, IOUtils, FiniteSetsExt
 
 Rec == ndJsonDeserialize(IOEnv.TRACE)
 Idx(kind) == {i \in DOMAIN Rec : Rec[i].k = kind}
 
+\* Snapshot!Validate on what the faulted text says: it parses as a package, the version is the
+\* supported one, and the stored checksum is H (SHA-256 of the JSON) of the content it carries
+Valid(e) == e.pkg.parsed /\ e.pkg.ver = 1 /\ e.pkg.sum = e.pkg.hsum
+
 LineOk(e) ==
   IF e.k = "pkg" THEN e.res = "ok" /\ e.same
   ELSE /\ e.res \in {"ok", "err"}
+       /\ (e.res = "ok" <=> Valid(e))                  \* Restore succeeds iff the package is valid
        /\ (e.res = "ok" => e.same)
        /\ (e.trunc => e.res = "err")
        /\ (e.f \in {"struct", "structpkg"} => e.res = "err")
